@@ -216,59 +216,109 @@ func checkC11(p *Prog, r *Report) {
 	if pout := findProxyOut(p); nil != pout {
 		r.Saw("func " + fnName(pout))
 		och := brokerChan(p, "CLine")
-		var hand *queueSend
+		/* Every place a Plain line is handed to the operator channel (a
+		helper folded in twice gives two). */
+		var hands []queueSend
 		for _, s := range sendsIn(pout) {
-			s := s
 			if fv, _ := loadedField(s.Chan); fv == och {
 				if b, ok := constBool(litFields(s.Val)["Plain"]); nil != litFields(s.Val)["Plain"] && ok && b {
-					hand = &s
+					hands = append(hands, s)
 				}
 			}
 		}
 		recs := slogCalls(pout, shellIO)
 		c := fnName(pout) + ":record"
-		switch {
-		case nil == hand:
-			rOut.Unproven(c, pout.Pos(), "hand-over of Plain lines not found")
-		case 1 != len(recs):
-			rOut.Bad(c, pout.Pos(), "%d 'Shell I/O' records next to the hand-over of output, exactly one expected (a record must be tied to the hand-over it reports)", len(recs))
-		default:
-			rec := recs[0]
-			checkLevel(rOut, c, rec)
-			if nil == hand.Sel {
-				/* Plain blocking send: record must follow it. */
-				if instrDominates(hand.Instr, rec) {
-					rOut.OK(c+":iff-handed-over", posOf(rec), "follows the blocking send")
-				} else {
-					rOut.Bad(c+":iff-handed-over", posOf(rec), "the record does not follow the hand-over")
-				}
-			} else {
-				aif, asucc := selectArmEdge(hand.Sel, hand.Arm)
-				if nil == aif || !edgeDominates(aif, asucc, rec) {
-					rOut.Bad(c+":iff-handed-over", posOf(rec), "the record is not confined to the select arm in which the chunk was handed over: a chunk dropped on cancellation would be logged as shown")
-				} else {
-					rOut.OK(c+":iff-handed-over", posOf(rec), "inside the hand-over arm of the select")
-					/* Every hand-over is logged. */
-					miss := reachQ{From: edgeLoc(aif.Block(), asucc), Block: func(i ssa.Instruction) bool { return i == ssa.Instruction(rec) }, Target: func(i ssa.Instruction) bool {
-						switch i.(type) {
-						case *ssa.Select, *ssa.Return:
-							return true
-						}
-						return false
-					}}.run()
-					if nil != miss {
-						rOut.Bad(c+":every-handover", posOf(miss), "a handed-over chunk can go unlogged")
-					} else {
-						rOut.OK(c+":every-handover", posOf(rec), "every handed-over chunk is logged")
-					}
+		isRec := func(i ssa.Instruction) bool {
+			for _, rc := range recs {
+				if i == ssa.Instruction(rc) {
+					return true
 				}
 			}
-			line := litFields(hand.Val)["Line"]
-			d := slogAttr(rec, lkData)
-			if nil != d && nil != line && sameFieldLoad(d, line) {
-				rOut.OK(c+":data", posOf(rec), "data is the chunk handed over")
-			} else {
-				rOut.Bad(c+":data", posOf(rec), "the record's %q attribute is not the chunk that was handed over", lkData)
+			return false
+		}
+		switch {
+		case 0 == len(hands):
+			rOut.Unproven(c, pout.Pos(), "hand-over of Plain lines not found")
+		case 0 == len(recs):
+			rOut.Bad(c, pout.Pos(), "no 'Shell I/O' record next to the hand-over of output")
+		default:
+			for _, rec := range recs {
+				checkLevel(rOut, c, rec)
+			}
+			/* A record only where a chunk was handed over: not reachable
+			without one of the hand-over edges (or sends). */
+			handEdges := map[Edge]bool{}
+			var plainSends []ssa.Instruction
+			okArms := true
+			for _, h := range hands {
+				if nil == h.Sel {
+					plainSends = append(plainSends, h.Instr)
+					continue
+				}
+				aif, asucc := selectArmEdge(h.Sel, h.Arm)
+				if nil == aif {
+					okArms = false
+					continue
+				}
+				handEdges[Edge{aif.Block().Index, aif.Block().Succs[asucc].Index}] = true
+			}
+			for k, rec := range recs {
+				cc := fmt.Sprintf("%s:iff-handed-over#%d", c, k+1)
+				stray := reachQ{From: entryLoc(pout), NoEdges: handEdges, Block: func(i ssa.Instruction) bool {
+					for _, ps := range plainSends {
+						if i == ps {
+							return true
+						}
+					}
+					return false
+				}, Target: func(i ssa.Instruction) bool { return i == ssa.Instruction(rec) }}.run()
+				switch {
+				case !okArms:
+					rOut.Unproven(cc, posOf(rec), "the branch taken when a chunk was handed over was not found")
+				case nil != stray:
+					rOut.Bad(cc, posOf(rec), "the record is not confined to where the chunk was handed over: a chunk dropped on cancellation would be logged as shown")
+				default:
+					rOut.OK(cc, posOf(rec), "only after a hand-over")
+				}
+			}
+			/* Every hand-over is logged before the next wait or return. */
+			for k, h := range hands {
+				cc := fmt.Sprintf("%s:every-handover#%d", c, k+1)
+				var from Loc
+				if nil == h.Sel {
+					from = locOf(h.Instr)
+				} else {
+					aif, asucc := selectArmEdge(h.Sel, h.Arm)
+					if nil == aif {
+						continue
+					}
+					from = edgeLoc(aif.Block(), asucc)
+				}
+				miss := reachQ{From: from, Block: isRec, Target: func(i ssa.Instruction) bool {
+					switch i.(type) {
+					case *ssa.Select, *ssa.Return:
+						return true
+					}
+					return false
+				}}.run()
+				if nil != miss {
+					rOut.Bad(cc, posOf(miss), "a handed-over chunk can go unlogged")
+				} else {
+					rOut.OK(cc, posOf(h.Instr), "every chunk handed over here is logged")
+				}
+				/* With the chunk itself. */
+				line := litFields(h.Val)["Line"]
+				okData := false
+				for _, rec := range recs {
+					if d := slogAttr(rec, lkData); nil != d && nil != line && sameFieldLoad(d, line) {
+						okData = true
+					}
+				}
+				if okData {
+					rOut.OK(fmt.Sprintf("%s:data#%d", c, k+1), posOf(h.Instr), "data is the chunk handed over")
+				} else {
+					rOut.Bad(fmt.Sprintf("%s:data#%d", c, k+1), posOf(h.Instr), "no record's %q attribute is the chunk that was handed over", lkData)
+				}
 			}
 		}
 	} else {
